@@ -147,50 +147,92 @@ def finding_record(f, scn, sched, run, family='S1'):
             'blocked': [list(b) for b in run.sim.blocked_final[:12]]}
 
 
+def merge_stats(dst, src):
+    """Fold the statistics of one (isolated) run into a task's statistics."""
+    for k, v in src.items():
+        if k == 'digests':
+            for d, nt in v.items():
+                dst[k][d] = dst[k].get(d, False) or nt
+        elif k == 'cov':
+            for ck, items in v.items():
+                have = dst[k].setdefault(ck, [])
+                for x in items:
+                    if x not in have:
+                        have.append(x)
+        elif isinstance(v, dict):
+            d = dst.setdefault(k, {})
+            for kk, vv in v.items():
+                if isinstance(vv, bool):
+                    d[kk] = d.get(kk, False) or vv
+                elif isinstance(vv, (int, float)):
+                    d[kk] = d.get(kk, 0) + vv
+                else:
+                    d[kk] = vv
+        elif isinstance(v, list):
+            dst.setdefault(k, []).extend(v)
+        elif isinstance(v, (int, float)) and not isinstance(v, bool):
+            dst[k] = dst.get(k, 0) + v
+        else:
+            dst[k] = v
+
+
+def exec_run(scn, sched, props, label):
+    """One simulated session + its evaluation; everything returned is plain data.  Always called
+    through harness.isolate (a forked child), so that no run can see interpreter state left behind
+    by another."""
+    parserec.reset()
+    run = session.run_session(scn, sched)
+    cov = {'calls': set(), 'cards': set(), 'headers': set(), 'voids': set(), 'hand_sizes': set()}
+    an, windows = evaluate_run(run, props, cov)
+    st = new_stats()
+    add_run_stats(st, run, an, windows, label)
+    for k in cov:
+        st['cov'][k] = sorted(map(list, cov[k])) if k in ('calls', 'cards', 'headers') else \
+            sorted(cov[k])
+    ok = run.outcome == 'finished' and run.server_exc is None
+    res = {'st': st, 'info': pilot_info(run), 'digest': run.digest,
+           'findings': [finding_record(f, scn, sched, run) for f in an.findings
+                        if f.prop in props],
+           'log_text': run.log_text if ok else None, 'outcome': run.outcome,
+           'sample': sample_of(scn, sched, run)}
+    session.cleanup(run)
+    return res
+
+
 def run_group(task):
     """task: {'seed', 'm', 'props', 'nboards'?, 'table'?, 'force'?}"""
+    from harness import isolate
     seed = task['seed']
     props = tuple(task['props'])
     rng = random.Random(f'group/{seed}')
     scn = gen.gen_s1(rng, nboards=task.get('nboards'), table=task.get('table'))
     scn['decision_seed'] = rng.randrange(1 << 40)
     st = new_stats()
-    cov = {'calls': set(), 'cards': set(), 'headers': set(), 'voids': set(), 'hand_sizes': set()}
     findings = []
     samples = []
     st['tables'][scn['table']] = 1
 
     pilot_sched = session.default_sched()
-    parserec.reset()
-    run = session.run_session(scn, pilot_sched)
-    an, windows = evaluate_run(run, props, cov)
-    add_run_stats(st, run, an, windows, 'fifo')
-    info = pilot_info(run)
-    for f in an.findings:
-        if f.prop in props:
-            findings.append(finding_record(f, scn, pilot_sched, run))
+    r = isolate.call(exec_run, scn, pilot_sched, props, 'fifo')
+    merge_stats(st, r['st'])
+    info = r['info']
+    findings.extend(r['findings'])
     finished_logs = []
-    if run.outcome == 'finished' and run.server_exc is None:
-        finished_logs.append((pilot_sched, run.log_text))
-    samples.append(sample_of(scn, pilot_sched, run))
-    session.cleanup(run)
-    digests = [run.digest]
+    if r['log_text'] is not None:
+        finished_logs.append((pilot_sched, r['log_text']))
+    samples.append(r['sample'])
+    digests = [r['digest']]
 
     for j in range(task.get('m', 3) - 1):
         sched = gen_sched(rng, info, task.get('force'))
-        parserec.reset()
-        run = session.run_session(scn, sched)
-        an, windows = evaluate_run(run, props, cov)
-        add_run_stats(st, run, an, windows, sched['label'])
-        digests.append(run.digest)
-        for f in an.findings:
-            if f.prop in props:
-                findings.append(finding_record(f, scn, sched, run))
-        if run.outcome == 'finished' and run.server_exc is None:
-            finished_logs.append((sched, run.log_text))
+        r = isolate.call(exec_run, scn, sched, props, sched['label'])
+        merge_stats(st, r['st'])
+        digests.append(r['digest'])
+        findings.extend(r['findings'])
+        if r['log_text'] is not None:
+            finished_logs.append((sched, r['log_text']))
         if j == 0:
-            samples.append(sample_of(scn, sched, run))
-        session.cleanup(run)
+            samples.append(r['sample'])
 
     # timing independence (C08): the record depends only on boards and decisions
     if 'C08' in props and len(finished_logs) > 1:
@@ -214,9 +256,6 @@ def run_group(task):
                                  'outcome': 'finished', 'digest': None, 'blocked': []})
                 break
     st['compared_logs'] = len(finished_logs)
-    for k in cov:
-        st['cov'][k] = sorted(map(list, cov[k])) if k in ('calls', 'cards', 'headers') else \
-            sorted(cov[k])
     return {'stats': st, 'findings': findings[:20], 'samples': samples[:2], 'digests': digests,
             'nfindings': len(findings)}
 
